@@ -24,7 +24,8 @@ RULE = ("(1) Model-based histories of outcomes over 0..4 tests with startTestRun
         "of ExtendedToOriginalDecorator / TestResultDecorator / Tagger, and ExtendedToStreamDecorator with "
         "StreamFailFast), driven through an ExtendedToOriginalDecorator as TestCase.run does; after every call "
         "wasSuccessful()/shouldStop of the outer object and of every underlying result are compared with the "
-        "model. (2) TextTestResult output parsed after stopTestRun, including errors/failures reported about things "
+        "model (in the states listed under ASSUMPTIONS as 'not asserted' both answers are admitted). (2) TextTestResult "
+        "output parsed after stopTestRun, including errors/failures reported about things "
         "that are not started tests (as unittest reports setUpClass/setUpModule failures) and runs in which no test "
         "is started at all. (3) generated suites of real TestCases run by "
         "unittest.TestSuite / TestToolsTestRunner / testtools.run.main (in-process, exit status derived from "
@@ -36,7 +37,8 @@ RULE = ("(1) Model-based histories of outcomes over 0..4 tests with startTestRun
         "adapter), a change between two tests and one that must survive startTestRun; and per runner: each failing "
         "kind raised by a testtools and by a plain unittest TestCase (which reports to the result directly, so that "
         "the result's own failfast branch decides) in second position of three tests. Only truth values of "
-        "wasSuccessful()/shouldStop are compared; the duration in 'Ran N tests in Xs' is not looked at. Non-trivial: >= 2 tests with a "
+        "wasSuccessful()/shouldStop are compared; the duration in 'Ran N tests in Xs' is not looked at and the verdict line "
+        "may carry further counts in its brackets ('OK (skipped=1)', 'FAILED (failures=2, skipped=1)'). Non-trivial: >= 2 tests with a "
         "bad outcome not in first position, or a second startTestRun, or stack depth >= 2; distinct = distinct spec.")
 ASSUMPTIONS = [
     "wasSuccessful() of ExtendedToStreamDecorator after an unexpected success is not asserted (sentence 1 names TestResult-family objects)",
@@ -46,7 +48,20 @@ ASSUMPTIONS = [
     "detail texts contain no lines that look like TextTestResult section headers",
     "a change of failfast takes effect at once, for the very next outcome, not at the next startTestRun (the statement "
     "says 'set before or after wrapping' and is silent about a change in the middle of a run; an implementation that "
-    "reads the flag once per run would be reported as stop:*-early / *-missing by the failfast op and by failfast_grid)",
+    "reads the flag once per run would be reported as stop:*-early / *-missing by the failfast op and by failfast_grid); "
+    "when it is switched on after a failing outcome of the same run, shouldStop is not asserted until stop(), the next "
+    "failing outcome or the flag being switched off again pins it ('the first such outcome' may be the one already there)",
+    "stop() called on ONE constituent of a MultiTestResult, not on the multiplexer: that constituent's shouldStop is "
+    "asserted, the multiplexer's is not (the statement speaks of stop() reaching the underlying results, not of a "
+    "multiplexer noticing what happened behind its back)",
+    "an adapter over a 2.6/2.7-style target (no startTestRun of its own): whether a stop request made in an earlier run "
+    "is still standing after the adapter's startTestRun is not asserted; stop() or a failing outcome under failfast in "
+    "the new run are asserted as ever",
+    "two ThreadsafeForwardingResults over one target: after a failing outcome that went through the OTHER forwarder only, "
+    "the verdict of a forwarder (and of decorators around it) is not asserted (the target's is), and after failfast was "
+    "ASSIGNED to one forwarder shouldStop at a failure reported through the other is not asserted (a plain attribute of "
+    "that forwarder, or a property reaching the shared target); a target CREATED failfast, with no later assignment, must "
+    "stop for either",
     "a plain unittest.TestCase (suites_grid, std_* kinds) with failfast on is only run against objects that act on the "
     "flag themselves (TestResult, TextTestResult, MultiTestResult, ExtendedToOriginalDecorator, a forwarder whose target "
     "has it): TestResultDecorator / Tagger / ThreadsafeForwardingResult keep an assigned failfast as a plain attribute",
@@ -185,6 +200,11 @@ def run_case(spec):
     child_stopped = set()       # (Multi-hetero) constituents that were told to stop individually
     bad = False
     bad_strict = False          # error/failure only (ETSD)
+    bad_own = False             # ... reported through the object under test itself (bad: through any door to the same result)
+    bad_sib = False             # ... reported through the sibling forwarder
+    bad_ever = False            # ... at any time, through any door
+    stop_open = False           # shouldStop is not pinned while nothing asks for a stop (see ASSUMPTIONS: two readings are admitted)
+    toggled = False             # a failfast op has been applied to the outer object
     stopped = False
     cur = None
     ntests = 0
@@ -206,30 +226,33 @@ def run_case(spec):
                 vs.append(V("verdict", "ETSD-true-after-failure", "wasSuccessful() True after a failure (%s)" % step))
             if not bad and not ok:
                 vs.append(V("verdict", "ETSD-false-without-failure", "wasSuccessful() False without any failing outcome (%s)" % step))
-        elif ok != (not bad):
+        elif ok != (not bad) and not (bad and not bad_own and ok):
+            # (bad and not bad_own: the only failing outcome went through ANOTHER forwarder to the shared target; whether
+            # this forwarder's verdict is the target's or its own is not pinned)
             vs.append(V("verdict", "%s-%s" % (spec["base"], "stale-failure" if not bad else "missed-failure"),
                         "wasSuccessful() is %r after %s on %s; failing outcome since last startTestRun: %r" % (ok, step, tag, bad)))
         want_stop = stopped or latched
         ss = outer.shouldStop
+        # not pinned while nothing asks for a stop: failfast was switched on when a failing outcome had been reported already
+        # ("at the first such outcome": the one before the switch, or the next one)
+        open_now = stop_open or (ff and bad and not latched)
         if child_stopped and not want_stop:
-            if not ss:
-                vs.append(V("stop", "Multi-ignores-a-stopped-constituent", "a constituent was stopped but the multiplexer's shouldStop is %r after %s on %s" % (ss, step, tag)))
+            # stop() went to one constituent only, behind the multiplexer's back: that one is stopped; whether the
+            # multiplexer notices is not part of the statement ("stop() called on any adapter or multiplexer reaches the
+            # underlying result(s)" is the downward direction)
+            for ui in sorted(child_stopped):
+                if not under[ui].shouldStop:
+                    vs.append(V("stop", "constituent-not-stopped", "stop() on constituent %d did not reach its underlying result (after %s)" % (ui, step)))
             return
-        if bool(ss) != want_stop:
+        pinned = want_stop or not open_now
+        if pinned and bool(ss) != want_stop:
             vs.append(V("stop", "%s-failfast=%s-%s" % (spec["base"], spec["failfast"], "early" if ss else "missing"),
                         "shouldStop is %r after %s on %s (failfast=%s, stop() called=%r, failing outcome=%r)" % (
                             ss, step, tag, spec["failfast"], stopped, bad)))
-        for sib in getattr(build, "siblings", []):
+        for sib in getattr(build, "siblings", []) if pinned else []:
             if bool(sib.shouldStop) != want_stop and not (bool(ss) != want_stop):
                 vs.append(V("stop", "sibling-forwarder", "a second ThreadsafeForwardingResult on the same target has shouldStop=%r, the first says %r after %s" % (sib.shouldStop, ss, step)))
-        for ui, u in enumerate([] if direct else under):
-            if child_stopped and ui in child_stopped and not want_stop:
-                # stop() went to one constituent only: that one is stopped (and so the multiplexer says stop)
-                if not u.shouldStop:
-                    vs.append(V("stop", "constituent-not-stopped", "stop() on constituent %d did not reach its underlying result (after %s)" % (ui, step)))
-                continue
-            if child_stopped and not want_stop:
-                continue
+        for ui, u in enumerate([] if direct or not pinned else under):
             if spec["failfast"] == "after2" and not stopped and ui != 1:
                 # fail-fast was asked of the second constituent alone: until a startTestRun has spread the flag, the
                 # other constituents were never asked to stop at a failure (the multiplexer says stop because one did)
@@ -240,7 +263,16 @@ def run_case(spec):
         if spec["base"] != "ETSD" and not direct and len(vs) == n_before[0]:
             for who, obj in [("underlying", u) for u in under] + [("sibling-forwarder", sib) for sib in getattr(build, "siblings", [])] + \
                     [("layer-%d" % i, l) for i, l in enumerate(getattr(build, "layers", [])[1:], 1)]:
-                if bool(obj.wasSuccessful()) != (not bad):
+                said = bool(obj.wasSuccessful())
+                if who == "sibling-forwarder":
+                    # the other worker's forwarder: says "failed" when something failing went through it, never before
+                    # anything failing was reported at all; between the two it may answer for the shared target or for itself
+                    wrong = (bad_sib and said) or (not bad_ever and not said)
+                elif who == "underlying":
+                    wrong = said != (not bad)
+                else:
+                    wrong = said != (not bad) and not (bad and not bad_own and said)
+                if wrong:
                     vs.append(V("verdict", "%s-%s" % (who.split("-")[0], spec["base"]), "%s says wasSuccessful() %r after %s on %s, failing outcome reported: %r" % (
                         who, obj.wasSuccessful(), step, tag, bad)))
                     break
@@ -253,9 +285,15 @@ def run_case(spec):
         k = op["op"]
         if k == "startTestRun":
             driver.startTestRun()
-            if not direct:      # 2.6/2.7-style targets know nothing of runs: their verdict and stop flag persist
-                bad = bad_strict = stopped = latched = False
+            if not direct:
+                bad = bad_strict = bad_own = bad_sib = stopped = latched = stop_open = False
                 child_stopped.clear()
+            elif stopped or latched:
+                # 2.6/2.7-style targets know nothing of runs: their verdict persists; whether the adapter in front of them
+                # starts the new run with the old stop request or with a fresh flag is not pinned (a new stop() / failing
+                # outcome under failfast pins it again)
+                stopped = latched = False
+                stop_open = True
             restarts += 1
         elif k == "stopTestRun":
             driver.stopTestRun()
@@ -281,7 +319,7 @@ def run_case(spec):
             if op["kind"] in H.BAD:
                 if not bad:
                     bad_pos = ntests
-                bad = True
+                bad = bad_own = bad_ever = True
                 if op["kind"] != "uxsuccess":
                     bad_strict = True
                 elif spec["base"] == "ETSD" and ff:
@@ -297,6 +335,7 @@ def run_case(spec):
         elif k == "failfast":
             outer.failfast = op["value"]
             ff = bool(op["value"])
+            toggled = True
         elif k == "sibling_test":
             sib = build.siblings[0]
             t2 = H.make_test(90 + n)
@@ -304,9 +343,13 @@ def run_case(spec):
             getattr(sib, H.METHOD[op["kind"]])(t2, **({"details": {}} if op["kind"] != "skip" else {"reason": "r"}))
             sib.stopTest(t2)
             if op["kind"] in H.BAD:
-                bad = bad_strict = True
-                if spec["failfast"] == "before":     # the shared target itself is failfast; a flag set on the other forwarder is not the sibling's
-                    latched = True
+                bad = bad_strict = bad_sib = bad_ever = True
+                if spec["failfast"] == "before" and not toggled:
+                    latched = True          # the shared target itself was created failfast
+                elif ff or spec["failfast"] == "before":
+                    # failfast was assigned to the other forwarder (or to something around it): whether that is a flag of
+                    # that forwarder alone or reaches the shared target, which then stops at the sibling's failure, is not pinned
+                    stop_open = True
         else:
             continue
         before = len(vs)
@@ -497,13 +540,15 @@ def run_text(spec):
         if ("Ran 1 test " in out) != (n == 1):
             vs.append(V("text", "plural", "wrong plural for %d tests" % n))
         tail = out[m.end():].strip().split("\n")[0] if out[m.end():].strip() else ""
+        # "OK or FAILED, failure total": further counts in the brackets (unittest prints 'OK (skipped=1)',
+        # 'FAILED (failures=1, skipped=1)') are not excluded by the statement
         if problems:
-            mm = re.match(r"^FAILED \(failures=(\d+)\)$", tail)
+            mm = re.match(r"^FAILED \((?:.*, )?failures=(\d+)(?:, .*)?\)$", tail)
             if not mm:
                 vs.append(V("text", "verdict-line", "run with problems %r ends with %r" % (problems, tail)))
             elif int(mm.group(1)) != len(problems):
                 vs.append(V("text", "failure-total", "FAILED (failures=%s) for %d problems" % (mm.group(1), len(problems))))
-        elif tail != "OK":
+        elif not re.match(r"^OK(?: \(.*\))?$", tail):
             vs.append(V("text", "verdict-line", "clean run ends with %r" % tail))
         sections = []
         for i, ln in enumerate(lines):
@@ -620,6 +665,11 @@ def make_tests(kinds, ran, result_holder):
     return G, tests
 
 
+def says_ok(txt):
+    """The verdict line of a summary is 'OK', possibly followed by counts in brackets as unittest prints them."""
+    return bool(re.search(r"^OK(?: \(.*\))?$", txt, re.M))
+
+
 def exit_status(code):
     """What the OS reports for SystemExit(code)."""
     if code is None:
@@ -686,7 +736,7 @@ def run_suite(spec):
         if bool(res.wasSuccessful()) != good:
             vs.append(V("suite", "verdict-runner", "runner result wasSuccessful() %r after %r" % (res.wasSuccessful(), [kinds[i] for i in ran])))
         txt = out.getvalue()
-        if ("\nOK\n" in txt) != good:
+        if says_ok(txt) != good:
             vs.append(V("suite", "runner-text", "runner printed %r for outcomes %r" % (txt[-80:], [kinds[i] for i in ran])))
         tag = "runner"
     else:
@@ -711,7 +761,7 @@ def run_suite(spec):
         if (status == 0) != good:
             vs.append(V("exit-status", "run.main", "exit status %r (SystemExit(%r)) for outcomes %r" % (status, code, [kinds[i] for i in ran])))
         txt = out.getvalue()
-        if ("\nOK\n" in txt) != good:
+        if says_ok(txt) != good:
             vs.append(V("suite", "main-text", "main printed %r for outcomes %r" % (txt[-80:], [kinds[i] for i in ran])))
         tag = "main"
     if ran != want_ran:
@@ -754,7 +804,7 @@ def custom_subprocess(ctx):
             vs = []
             if (p.returncode == 0) != good:
                 vs.append(V("exit-status", "subprocess", "python -m testtools.run exited %d for %r" % (p.returncode, kinds[:6])))
-            if ("\nOK\n" in p.stdout) != good:
+            if says_ok(p.stdout) != good:
                 vs.append(V("suite", "subprocess-text", "child printed %r" % p.stdout[-80:]))
             out.append(({"subprocess_kinds": kinds[:8], "n": len(kinds)}, Case(vs, len(kinds) >= 2, ["subprocess"])))
     finally:
